@@ -41,6 +41,30 @@ type c19Arg struct {
 }
 
 func runC19(c *fw.Ctx) {
+	// every render point x a fixed set of lists built with the list operations (block, two-line
+	// block and line comments separated or not by explicit line breaks)
+	if c.Shard == 0 {
+		patterns := [][]string{
+			{"/*p1\n   second line*/", "\n", "//p2"},
+			{"/*p1*/", "\n", "/*p2*/"},
+			{"//p1", "/*p2*/"},
+			{"/*p1\n   second line*/", "/*p2*/", "\n", "/*p3*/"},
+			{"\n", "/*p1\n   second line*/", "\n", "\n", "//p2"},
+		}
+		for where := 0; where < 31; where++ {
+			for pi, pat := range patterns {
+				id := fmt.Sprintf("fixed:%d/%d", where, pi)
+				c.Case(id, func() {
+					var d dst.Decorations
+					d.Append(pat[0])
+					d.Append(pat[1:]...)
+					d.Prepend()
+					fail := func(rule, detail string) { c.Violate(rule, rule, id+": "+detail, "") }
+					c19Render(c, id, where, d, fail)
+				})
+			}
+		}
+	}
 	n := c.Pick(60000, 3000000)
 	for i := 0; i < n; i++ {
 		if !c.Mine(i) {
@@ -62,6 +86,8 @@ func c19History(c *fw.Ctx, id string, i int) {
 			return "\n" // an explicit line break is a decoration like any other
 		case 1, 2:
 			return fmt.Sprintf("//%d.%d", i, next)
+		case 3:
+			return fmt.Sprintf("/*%d.%d\n   second line*/", i, next) // a block comment over two lines
 		}
 		return fmt.Sprintf("/*%d.%d*/", i, next)
 	}
@@ -288,6 +314,11 @@ func sameList(a, b []string) bool {
 	return true
 }
 
+var c19BreakPoints = map[string]bool{
+	"AssignStmt.Start": true, "AssignStmt.End": true, "ValueSpec.Start": true, "ValueSpec.End": true, "TypeSpec.End": true,
+	"Field.Start": true, "Field.End": true, "ImportSpec.End": true, "FuncDecl.Start": true, "FuncDecl.End": true, "GenDecl.Start": true,
+}
+
 // c19Render attaches the list to a decoration point of a parsed file and checks the printed comments.
 func c19Render(c *fw.Ctx, id string, where int, d dst.Decorations, fail func(rule, detail string)) {
 	f, err := decorator.Parse("package p\n\nimport \"fmt\"\n\nvar v = 1\n\ntype T struct {\n\tF int\n}\n\nfunc f() {\n\ta = b\n\tg(x, y)\n\tswitch {\n\tcase a:\n\t}\n}\n")
@@ -368,15 +399,46 @@ func c19Render(c *fw.Ctx, id string, where int, d dst.Decorations, fail func(rul
 		return
 	}
 	toks, _ := obs.Scan(buf.Bytes())
-	got := obs.Comments(toks)
-	var want []string
+	var got, want []string
+	var startLine, endLine []int
+	for _, t := range toks {
+		if t.Tok == token.COMMENT {
+			got = append(got, obs.StripSpace(t.Lit)) // go/printer re-indents the inner lines of a block comment
+			startLine = append(startLine, t.Line)
+			endLine = append(endLine, t.Line+strings.Count(t.Lit, "\n"))
+		}
+	}
 	for _, x := range d.All() {
 		if x != "\n" {
-			want = append(want, x)
+			want = append(want, obs.StripSpace(x))
 		}
 	}
 	if !sameList(got, want) {
 		fail("render-mismatch", fmt.Sprintf("point %s: printed comments %v, All() %v\n%s", point, got, want, buf.String()))
+		return
+	}
+	// explicit line breaks are rendered too: a comment that follows a "\n" entry (or a line comment)
+	// starts on a later line than the comment before it ends
+	// (only at the points before / after a whole statement, spec, field or declaration: inside a
+	// construct go/printer lays tokens out itself and need not honour a recorded line break)
+	if !c19BreakPoints[point] {
+		c.Count("rendered", 1)
+		c.Observe("render_points", point)
+		return
+	}
+	k := -1
+	brk := false
+	for _, x := range d.All() {
+		if x == "\n" {
+			brk = true
+			continue
+		}
+		k++
+		if k > 0 && brk && startLine[k] <= endLine[k-1] {
+			fail("render-mismatch", fmt.Sprintf("point %s: a line break between %q and %q is not rendered\n%s", point, want[k-1], want[k], buf.String()))
+			return
+		}
+		brk = strings.HasPrefix(x, "//")
 	}
 	c.Count("rendered", 1)
 	c.Observe("render_points", point)
